@@ -12,12 +12,12 @@ import (
 
 // SrvEvent is one datagram seen or sent by the scripted server, in order.
 type SrvEvent struct {
-	Seq  int
-	At   time.Time
-	Dir  string // "in" (arrived at the server) or "out" (handed to the client's socket)
-	Raw  []byte
-	Msg  *wire.Msg // nil if not STUN
-	Chan uint16    // ChannelData number if IsChan
+	Seq     int
+	At      time.Time
+	Dir     string // "in" (arrived at the server) or "out" (handed to the client's socket)
+	Raw     []byte
+	Msg     *wire.Msg // nil if not STUN
+	Chan    uint16    // ChannelData number if IsChan
 	IsChan  bool
 	Payload []byte
 }
